@@ -19,7 +19,7 @@ from vf import extract, unit as U, runner  # noqa: E402
 def cmd_skeleton(args):
     spec = ' '.join(args)
     spec, _, opts = spec.partition('|')
-    comps = [c.strip() for c in spec.split('::')]
+    comps = [c.strip() for c in re.split(r'\s::\s', spec)]
     src = open(os.path.join(U.REPO, comps[0])).read()
     lines, counts, sha = extract.extract_region(src, comps[1:], U.parse_opts(opts))
     print('//@extract ' + ' :: '.join(comps) + ((' | ' + opts.strip()) if opts.strip() else ''))
